@@ -58,7 +58,8 @@ type vSyncer struct {
 	syncs     int
 	noHead    bool
 	yield     bool
-	active    int // number of Sync calls in progress (for C08)
+	gate      chan struct{} // if set, Sync waits here until the gate opens or its context is cancelled (a stalled publisher)
+	active    int           // number of Sync calls in progress (for C08)
 	maxActive int
 }
 
@@ -121,6 +122,13 @@ func (m *vSyncer) Sync(ctx context.Context, start cid.Cid, sel ipld.Node) error 
 	unlock()
 	if ctx.Err() != nil {
 		return ctx.Err()
+	}
+	if m.gate != nil {
+		select {
+		case <-m.gate:
+		case <-ctx.Done():
+			return ctx.Err()
+		}
 	}
 	p := m.pos(start)
 	if p < 0 {
